@@ -170,9 +170,10 @@ def close (a b : Float) : Bool :=
 -inf or lose digits in the denormal range).  Rounding/underflow is outside the exact-arithmetic
 model, so numeric predicates are judged only when every scale factor of the (bit-identical) Float
 run is ≥ 1e-250. -/
-def rangeOk (t : DTables) (bps : List Nat) : Bool :=
+def rangeOkAt (lo : Float) (t : DTables) (bps : List Nat) : Bool :=
   let m := t.model
-  (rescForward m.p m.e0 (mkSites m.es bps)).scales.all (fun c => c ≥ 1e-250)
+  (rescForward m.p m.e0 (mkSites m.es bps)).scales.all (fun c => c ≥ lo)
+def rangeOk (t : DTables) (bps : List Nat) : Bool := rangeOkAt 1e-250 t bps
 
 /-- verdict on a log-likelihood value answered by the implementation for tables `t` -/
 def llCheck (t : DTables) (bps : List Nat) (x : Float) : String :=
@@ -357,8 +358,9 @@ def derivVerdict (o : Obj) (impl : List String) (var : String) (order : Nat) : S
         | none => "-"
         | some (d1, d2) =>
           let want := ratToFloat (if order == 1 then d1 else d2)
-          -- double range: the recursions square the first derivative
-          if !(Float.abs (ratToFloat d1) < 1e140) then "-" else
+          -- double range: the recursions square the first derivative and divide by the square (first
+          -- order) or the cube (second order) of every scale factor
+          if !(Float.abs (ratToFloat d1) < 1e140) || !rangeOkAt (if order == 1 then 1e-140 else 1e-95) t o.bps then "-" else
           if Float.abs (x - want) ≤ 1e-7 * (if Float.abs want > 1.0 then Float.abs want else 1.0) then "ok"
           else if order == 1 then "FAIL:derivative1" else "FAIL:derivative2"
   | _ => "FAIL:parse"
